@@ -61,7 +61,7 @@ extern int mpt_connection_assign(MPT_STRUCT(connection) *con, const MPT_STRUCT(s
 	if (!MPT_socket_active(&con->out.sock)) {
 		srm = (void *) con->out.buf._buf;
 	}
-	if (srm) {
+	if (!srm) {
 		MPT_STRUCT(stream) tmp = MPT_STREAM_INIT;
 		ret = mpt_stream_dopen(&tmp, &sock, MPT_STREAMFLAG(RdWr) | MPT_STREAMFLAG(Buffer));
 		if (ret < 0) {
